@@ -117,6 +117,10 @@ pub fn test(c: &Case) -> TestResult {
     }).collect();
     let world = Arc::new(Mutex::new(World::new(input.clone(), vec![(input.len(), Cond::Now)], vec![RStep::Give(u16::MAX)], write_script, c.vectored, IoFault::None)));
     world.lock().unwrap().close_at_end = false;
+    // one case in four: the transport's flush is not ready at once
+    if (c.order.len() + c.reads.len()) % 4 == 0 {
+        world.lock().unwrap().flush_script = vec![true, false, true, true, false];
+    }
     let mut req = Request::new(sp, MockReader(world.clone()), MockWriter(world.clone()));
     vensure!(req.is_writeable(), "c09-not-writeable", "Responder request is not writeable after its preamble");
 
